@@ -113,7 +113,7 @@ func c08sScenarios() []vh.SScenario {
 }
 
 func TestVerifC08S(t *testing.T) {
-	r := vres.Open("C08", "S")
+	r := vres.Open("C08", racePart("S"))
 	defer func() {
 		if err := r.Close(); err != nil {
 			t.Fatal(err)
